@@ -95,6 +95,25 @@ NEEDS = {
  'C16g': 'try/undo|stop whose body is `return !f(x);` (defeat only inside an expression) and a handler that completes',
  'C17g': 'write(string) of an empty/exhausted string on a speculative path that ends in halt (loop-head guard removed)',
  'C18g': 'an array literal mixing an int literal and a byte variable used for indexing / overload choice, under some PYTHONHASHSEEDs',
+ # fifth round
+ 'C01h': 'a computed value assigned to a non-const byte/bool global with other globals laid out after it (word-wide in-place write)',
+ 'C02h': '`local ?? computed` evaluated into r1 (right operand no longer spilled)',
+ 'C03h': '`g is bool` on a mutable int global in value position while the result register holds a stale value >= 2',
+ 'C04h': 'a frame whose deepest slot is byte-sized and a stack exactly one word below the true minimum (byte slot not counted)',
+ 'C05h': 'plain `b[i] = e` on a byte[] with an out-of-range index and a right-hand side that prints or faults (guard after the RHS)',
+ 'C06h': 'a defeat call / preempt inside an undo/stop handler (wrong accept) or a you-call / try / ?? inside a handler (wrong reject)',
+ 'C07h': 'a local/parameter/loop variable redeclared or shadowed locally while a global of the same name exists',
+ 'C08h': 'a loop body declaring an array, then try/undo whose body always breaks/returns and is defeated only inside an expression',
+ 'C09h': 'value-position `<`-family comparison of a byte with an int within 255 of the word minimum (branch-free lowering)',
+ 'C10h': 'an overloaded / twice-instantiated function F next to a function literally named F_1 (duplicate label)',
+ 'C11h': 'two adjacent, different prefix operators (`not -x`, `+-x`)',
+ 'C12h': 'the escape \\x00 in a string or character literal',
+ 'C13h': 'two constant arrays with equal item values but different element width (int[] vs byte[] vs packed bool[]) in one program',
+ 'C14h': 'a constant negative index (-len..-1) into a constant string (folded with Python indexing)',
+ 'C15h': '--unchecked: `a[i] == b[i]` / `h * 31 + s[i]` on strings (left operand in r0 not spilled around the length load)',
+ 'C16h': 'a user overload of all_is_win / all_is_broken with arguments, called as the last statement',
+ 'C17h': 'write/writeln of `e is bool` where e is a non-zero int with a zero low byte',
+ 'C18h': '-m24/40/48/56 with two run-time-sized int[]/string[] arrays live at once (shift instead of multiply)',
 }
 ALSO = {'C01d': ['C18'], 'C04c': ['C01'], 'C04d': ['C13'], 'C14c': [], 'C13c': ['C10'], 'C16d': ['C03'], 'C17d': ['C01'], 'C09c': ['C02'], 'C09d': ['C01'], 'C18b': ['C01'], 'C17': ['C04'], 'C15': ['C02'], 'C09b': ['C14'], 'C07b': [], 'C16': ['C03']}
 
